@@ -30,7 +30,7 @@ def parse_impl(line):
     t, d = line.split(" | D")
     toks = []
     for w in t.split()[1:]:
-        m = re.match(r"(\w+)@(\d+)=(\d+):(\d+)/(\d+):(\d+)$", w)
+        m = re.match(r"(\w+)@(\d+)=(-?\d+):(-?\d+)/(-?\d+):(-?\d+)$", w)
         toks.append((m.group(1), int(m.group(2)), (int(m.group(3)), int(m.group(4))), (int(m.group(5)), int(m.group(6)))))
     diags = []
     for w in d.split():
@@ -101,6 +101,11 @@ def run(ctx):
             pairs.append("\n".join(ls[:li] + [" " * k + ls[li]] + ls[li + 1:])); meta.append(("sp", t, li, k))
         # text after line li replaced
         pairs.append("\n".join(ls[:li + 1] + ["zzz ( ;", "int"])); meta.append(("post", t, li, 0))
+        # blanks before the '#' of a marker must not change any governed position
+        mk = [j for j, l in enumerate(ls) if re.match(r"\s*#\s*(line\s+)?\d+", l)]
+        if mk:
+            j = rng.choice(mk)
+            pairs.append("\n".join(ls[:j] + [" " * k + ls[j]] + ls[j + 1:])); meta.append(("indent", t, j, k))
         # more text before everything (markers must re-base identically)
         pre = rng.randrange(1, 4)
         pairs.append("\n".join(["int pre%d;" % j for j in range(pre)] + ls)); meta.append(("pre", t, li, pre))
@@ -138,6 +143,15 @@ def run(ctx):
                         kd, off, "%d line break(s)" % k if kind == "nl" else "%d blank(s)" % k,
                         "at the start of line %d" % li, pos, pos2, exp_pos, loc, loc2, exp_loc)
                     break
+        elif kind == "indent":
+            if len(ptoks) != len(toks):
+                continue
+            for (kd, off, pos, loc), (kd2, off2, pos2, loc2) in zip(toks, ptoks):
+                if phys(off) == li:
+                    continue
+                if pos2 != pos:
+                    bad = "token %s (offset %d): %d blank(s) inserted before the '#' of the marker on line %d; computePosition %s -> %s" % (kd, off, k, li, pos, pos2)
+                    break
         elif kind == "post":
             for (kd, off, pos, loc), (kd2, off2, pos2, loc2) in zip(toks, ptoks):
                 if phys(off) > li or kd == "EndOfFile" or phys(off) == li and kd2 != kd:
@@ -173,6 +187,28 @@ def run(ctx):
                 if nviol < 3:
                     ctx.report("excerpt:" + t[:50], "text %r: diagnostic %s at %s carries excerpt %r, expected %r" % (t[:200], ident, pos, s, exp),
                                {"component": "positions", "law": "excerpt", "text": t})
+                nviol += 1
+                break
+    # a marker '# N' on physical line j names the next line N: a governed token on physical line p is reported on N + (p - j - 1)
+    for t, (toks, diags) in zip(texts, res):
+        ls = t.split("\n")
+        mk = [(j, int(re.match(r"\s*#\s*(?:line\s+)?(\d+)", l).group(1))) for j, l in enumerate(ls) if re.match(r"\s*#\s*(line\s+)?\d+", l)]
+        if not mk:
+            continue
+        u16 = lambda s: len(s.encode("utf-16-le")) // 2
+        starts = [0]
+        for l in ls[:-1]:
+            starts.append(starts[-1] + u16(l) + 1)
+        for kd, off, pos, loc in toks:
+            p = max(j for j, s0 in enumerate(starts) if s0 <= off)
+            gov = [(j, n) for j, n in mk if j < p]
+            if not gov:
+                continue
+            j, n = gov[-1]
+            if pos[0] != n + (p - j - 1):
+                if nviol < 3:
+                    ctx.report("marker:" + t[:50], "text %r: token %s on physical line %d follows the marker '# %d' of line %d but is reported on line %d (expected %d)"
+                               % (t[:200], kd, p, n, j, pos[0], n + (p - j - 1)), {"component": "positions", "law": "marker", "text": t})
                 nviol += 1
                 break
     ctx.cov.update({
